@@ -44,3 +44,29 @@ package git
 //@   ensures result1 == nil ==> (len(result0) >= 1 && len(result0) <= 2)
 //@   ensures result1 == nil ==> (result0[len(result0)-1] != nil && !result0[len(result0)-1].OnlySafeKeys)
 //@   ensures result1 == nil && len(result0) == 2 ==> (result0[0] != nil && result0[0].OnlySafeKeys)
+
+// C03: the arguments of the range scan.  Every non-zero include id is passed
+// positively and every non-zero exclude id with a leading "^", in order, and
+// nothing else; in range-to-remote mode the remote's own refs are excluded
+// either wholesale (--not --remotes=<remote>) or through the verified skipped
+// refs, never neither.
+//@ func nonZeroShas
+//@   props C03
+//@   modifies fresh
+//@   loop 1 iter len(sha) > 0 && !iszerooid(sha) ==> len(nz) == iter(len(nz)) + 1 && nz[iter(len(nz))] == sha
+//@   loop 1 iter !(len(sha) > 0 && !iszerooid(sha)) ==> len(nz) == iter(len(nz))
+//@ func IsZeroObjectID
+//@   props C03
+//@   pure
+//@   ensures @def result == iszerooid(s)
+//@ func includeExcludeShas
+//@   props C03
+//@   modifies fresh
+//@   loop 1 iter len(args) == iter(len(args)) + 1 && args[iter(len(args))] == i && forall_int(k, args[k], 0 <= k && k < iter(len(args)) ==> args[k] == iter(args[k]))
+//@   loop 2 iter len(args) == iter(len(args)) + 1 && forall_int(k, args[k], 0 <= k && k < iter(len(args)) ==> args[k] == iter(args[k]))
+//@ func revListArgs
+//@   props C03
+//@   requires @inv opt != nil
+//@   at call git.includeExcludeShas:2 assert arg0__ == include && arg1__ == exclude && len(opt.SkippedRefs) == 0
+//@   at call git.includeExcludeShas:3 assert arg0__ == include && arg1__ == exclude && len(opt.SkippedRefs) > 0
+//@   at call strings.Join:2 assert opt.Mode == ScanRangeToRemoteMode ==> len(args) >= 3 && args[len(args)-2] == "--not" && args[len(args)-1] == scat("--remotes=", opt.Remote)
